@@ -181,6 +181,27 @@ pub fn run(ctx: &Ctx) -> Outcome {
             }
         }
     }
+    // ---- the maximum capacity (thorough only: each case maps an 8 GiB table)
+    if ctx.thorough && ctx.shard == 0 {
+        for c in [(1usize << 29) - 1, 1 << 29, (1 << 30) + 5, usize::MAX / 2, usize::MAX] {
+            out.evaluations += 1;
+            out.add("maximum_capacity_cases", 1);
+            match guarded(|| capacity_case(c, false)) {
+                Ok(Ok(l)) if l == 1 << 30 => {
+                    out.distinct.insert(fnv(FNV_OFFSET ^ 0x30, c as u64));
+                    out.max("max_table_len", l as f64);
+                }
+                Ok(Ok(l)) => {
+                    out.violate("c14/capacity-max", format!("with_capacity({c}) created a table of {l} bins, expected the maximum 2^30"), Json::obj().with("check", Json::s("c14")).with("capacity", Json::u(c)));
+                    return out;
+                }
+                Ok(Err(e)) | Err(e) => {
+                    out.violate("c14/capacity-max", format!("capacity {c}: {e}"), Json::obj().with("check", Json::s("c14")).with("capacity", Json::u(c)));
+                    return out;
+                }
+            }
+        }
+    }
     // ---- reserve grid
     for cap in [0usize, 1, 8, 16, 33, 100] {
         for fill in [0u64, 1, 5, 11, 12, 13, 24, 47, 48, 49, 100, 385] {
